@@ -11,8 +11,8 @@ GROUPS = [
     Group(name="C04/Var.binops", unity="C04/u_var.cpp", entry="h_var_binop", functions=[(f, p, "harness (loop-free, full domain)") for f, p in VARF], checks=CH, timeout=300),
     Group(name="C04/Var.divmod", unity="C04/u_var.cpp", entry="h_var_divmod", functions=[("Var::div", V, "harness (loop-free, full domain)"), ("Var::mod", V, "harness (loop-free, full domain)")],
           checks=CH + ["--signed-overflow-check"], timeout=300),
-    Group(name="C04/Var.divmod.values[bounded]", unity="C04/u_var.cpp", entry="h_var_divmod", defines=["SMALLDIV"], functions=[("Var::div", V, "harness"), ("Var::mod", V, "harness")],
-          checks=CH, timeout=900, bounded="quotient/remainder identity for |divisor| < 128 and |dividend| < 2^20 (64-bit symbolic division does not scale)", tier="thorough"),
+    # C04/Var.divmod.values (quotient/remainder identity) was tried as a bounded group and removed: two 64-bit symbolic dividers do not
+    # finish within 900 s on any back end even for |divisor| < 128; the guard contract above (zero / INT64_MIN / -1) is full-domain.
     Group(name="C04/Var.mul.values[bounded]", unity="C04/u_var.cpp", entry="h_var_mul", defines=["SMALLMUL"], functions=[("Var::mul", V, "harness")], checks=CH, timeout=600,
           bounded="product value for |right operand| <= 16, left operand full 64-bit (64x64-bit symbolic multiplication does not scale)"),
     Group(name="C04/Operator.set_operator", unity="C04/u_var.cpp", entry="h_set_operator", functions=[("Operator::set_operator", O, "harness (loop-free, all strings of <= 3 characters)")], checks=CH, timeout=300),
@@ -49,6 +49,9 @@ for a in range(10):
         GROUPS.append(shape(n, (a,), "quick" if a in (0, 3, 9, 1) else "thorough"))
     for b in range(10):
         for n in (5, 6):
+            # the harness excludes a shift result that feeds mul/div/mod (its value is beyond what the multiplier contract covers): not registered, the canary would be unreachable
+            if (n == 5 and a == 5 and b <= 2) or (n == 6 and b == 5 and a <= 2):
+                continue
             GROUPS.append(shape(n, (a, b), "quick" if (a in (0, 3, 9) and b in (0, 3, 9)) else "thorough"))
         if b not in (3,):
             GROUPS.append(shape(24, (a, b), "quick" if (a in (0, 3, 9) and b in (0, 4, 9)) else "thorough"))
